@@ -43,13 +43,17 @@ DocSeq == << Obj(<<k_, c_, o_, a_, b_>>, <<IntV(1), Arr(Elems), Obj(Names, Elems
              Obj(<<k_, a_>>, <<IntV(2), Arr(<<IntV(1)>>)>>) >>
 TheCtx == Obj(<<v_, w_>>, <<IntV(1), S(e1_)>>)
 
+\* the prefix-related and mixed spellings only (the universe of the lexer model MC_Lexer)
+PrefixPool == { <<37>>, <<37, 37>>, <<37, 37, 37>>, <<37, 167>>, <<167, 37>> }
 Assignments ==
   IF Universe = "pairs"
   THEN {[DefaultTok EXCEPT ![i1] = s1, ![i2] = s2] : i1 \in Idents, i2 \in Idents, s1 \in Pool, s2 \in Pool} \cup {DefaultTok}
+  ELSE IF Universe = "prefix"
+  THEN {[DefaultTok EXCEPT ![i1] = s1, ![i2] = s2] : i1 \in Idents, i2 \in Idents, s1 \in PrefixPool, s2 \in PrefixPool} \cup {DefaultTok}
   ELSE {}
 Distinct8(t) == Cardinality({t[i] : i \in Idents}) = 8
 
-Init == /\ IF Universe = "pairs" THEN assign \in {t \in Assignments : Distinct8(t)}
+Init == /\ IF Universe \in {"pairs", "prefix"} THEN assign \in {t \in Assignments : Distinct8(t)}
            ELSE \E n \in 1..200 : assign = [i \in Idents |-> RandomElement(Pool)] /\ Distinct8(assign)
         /\ prog \in Programs
         /\ done = FALSE
